@@ -231,6 +231,18 @@ impl Prop for C20 {
             s.fail("explain.scores-only-with-explain", "under a sort without _score (and a query without custom scoring) hit scores are 0 without explain and the real scores with explain", case, obs);
             continue;
           }
+          // only total_hits_estimate differs, on the pruned score fast path: WAND/BMW prune without
+          // explain, but explain installs a score hook and a hook disables pruning (/repo efe566e),
+          // so the estimate becomes the exact count
+          let pruned_class = fast && matches!(req["execution"].as_str(), Some("wand") | Some("bmw") | None) && req["aggs"].is_null() && !has_hook(&req["query"]);
+          if explain && pruned_class && v.total_hits_estimate >= base.total_hits_estimate {
+            let mut b2 = base.clone();
+            b2.total_hits_estimate = v.total_hits_estimate;
+            if diff_results(&b2, &v).is_none() {
+              s.fail("explain.total-estimate-under-pruning", "default sort with wand/bmw and no aggregations: total_hits_estimate is the pruned estimate without explain and the exact count with explain (explain installs a score hook, a score hook disables pruning)", case, obs);
+              continue;
+            }
+          }
           s.fail(if explain { "explain.result-changed" } else { "profile.result-changed" }, "response (ignoring explanation/profile) differs from the flags-off response", case, obs);
         }
       }
